@@ -4,6 +4,7 @@ package main
 
 import (
 	"encoding/binary"
+	"encoding/json"
 	"fmt"
 
 	"github.com/tokenized/pkg/bitcoin"
@@ -56,10 +57,21 @@ func (u *TxUniverse) OutPointID(op wire.OutPoint) int64 {
 	return t*10 + int64(op.Index)
 }
 
-// Tx returns (building on first use) transaction t spending the given outpoints, with the given
-// locking scripts for its outputs (a default marker output is added when there is none) and
-// unlocking scripts for its inputs.
-func (u *TxUniverse) Tx(t int64, body []int64, outScripts [][]byte, inScripts [][]byte) *wire.MsgTx {
+// SubscribedData is the 20-byte push a relevant transaction carries in its first output.
+var SubscribedData = []byte{0x11, 0x22, 0x33, 0x44, 0x55, 0x66, 0x77, 0x88, 0x99, 0xaa, 0xbb, 0xcc, 0xdd, 0xee,
+	0xff, 0x01, 0x02, 0x03, 0x04, 0x05}
+
+func p2pkh(h []byte) []byte {
+	s := []byte{0x76, 0xa9, 0x14}
+	s = append(s, h...)
+	return append(s, 0x88, 0xac)
+}
+
+// Tx returns (building on first use) transaction t spending the given outpoints.  Every
+// transaction has exactly three outputs; output k carries the value 10 t + k (so a spent output is
+// identified by its outpoint id); output 0 pays to the subscribed hash iff the tx is relevant;
+// output 2 is a marker that makes the hash unique per id.
+func (u *TxUniverse) TxRel(t int64, body []int64, relevant bool) *wire.MsgTx {
 	if tx, ok := u.txs[t]; ok {
 		return tx
 	}
@@ -67,27 +79,56 @@ func (u *TxUniverse) Tx(t int64, body []int64, outScripts [][]byte, inScripts []
 		panic(harnessErr(fmt.Sprintf("tx %d was referenced as an unknown parent before being built", t)))
 	}
 	tx := wire.NewMsgTx(1)
-	for i, o := range body {
+	for _, o := range body {
 		op := u.OutPoint(o)
-		var script []byte
-		if i < len(inScripts) {
-			script = inScripts[i]
-		}
-		tx.AddTxIn(wire.NewTxIn(&op, script))
+		tx.AddTxIn(wire.NewTxIn(&op, []byte{0x51}))
 	}
-	for _, s := range outScripts {
-		tx.AddTxOut(wire.NewTxOut(1000, s))
+	other := make([]byte, 20)
+	binary.LittleEndian.PutUint64(other, uint64(t)+7)
+	if relevant {
+		tx.AddTxOut(wire.NewTxOut(uint64(t*10), p2pkh(SubscribedData)))
+	} else {
+		tx.AddTxOut(wire.NewTxOut(uint64(t*10), p2pkh(other)))
 	}
-	// marker output so that every id has a distinct hash: OP_FALSE OP_RETURN <8 byte id>
+	tx.AddTxOut(wire.NewTxOut(uint64(t*10+1), p2pkh(other)))
 	marker := make([]byte, 11)
 	marker[0], marker[1], marker[2] = 0x00, 0x6a, 0x08
 	binary.LittleEndian.PutUint64(marker[3:], uint64(t))
-	tx.AddTxOut(wire.NewTxOut(0, marker))
+	tx.AddTxOut(wire.NewTxOut(uint64(t*10+2), marker))
 	u.txs[t] = tx
 	h := *tx.TxHash()
 	u.hashes[t] = h
 	u.ids[h] = t
 	return tx
+}
+
+func (u *TxUniverse) Tx(t int64, body []int64, outScripts [][]byte, inScripts [][]byte) *wire.MsgTx {
+	return u.TxRel(t, body, false)
+}
+
+// Declare builds the transactions listed in cfg.txs = [[txid, [outpoints], relevant?], ...]
+func (u *TxUniverse) Declare(c *Case) {
+	raw, ok := c.Cfg["txs"]
+	if !ok {
+		return
+	}
+	var decl [][]json.RawMessage
+	if err := json.Unmarshal(raw, &decl); err != nil {
+		panic(harnessErr("cfg.txs: " + err.Error()))
+	}
+	for _, d := range decl {
+		var t int64
+		var body []int64
+		rel := false
+		json.Unmarshal(d[0], &t)
+		json.Unmarshal(d[1], &body)
+		if len(d) > 2 {
+			var r int64
+			json.Unmarshal(d[2], &r)
+			rel = r != 0
+		}
+		u.TxRel(t, body, rel)
+	}
 }
 
 func (u *TxUniverse) ID(h *bitcoin.Hash32) int64 {
